@@ -98,13 +98,13 @@ package value
 //@   option evaluates
 //@   property C20
 //@   safety C20
-//@   requires l != nil && validStack(st) && st.size >= 6 && slotsNonNilV(st)
+//@   requires l != nil && l.iterable != nil && validStack(st) && st.size >= 6 && slotsNonNilV(st)
 
 //@ func Binning2d
 //@   option evaluates
 //@   property C20
 //@   safety C20
-//@   requires l != nil && validStack(st) && st.size >= 10 && slotsNonNilV(st)
+//@   requires l != nil && l.iterable != nil && validStack(st) && st.size >= 10 && slotsNonNilV(st)
 
 // ---------------------------------------------------------------- the evaluation frame (S4; C09-C11 verify it, others use it)
 //
